@@ -100,6 +100,45 @@ def emit_case(corpus_dir, seed, i, out_path, max_bytes=8192):
 
 # ---------------------------------------------------------------- hostile import graphs
 
+def generic_graphs():
+    """valid programs whose generic functions instantiate each other with SEVERAL concrete types (polymorphic recursion: f<Zahl> needs
+    f<Text> needs f<Zahl> ...), declared in the using module, in an imported module, or reached through a middle module. The set of
+    instantiations is finite, so the front end must come back; a lost 'already instantiated' entry makes it recurse for ever."""
+    out = []
+    lits = ["1", '"t"', "2,5", "wahr"]
+    for k in (1, 2, 3, 4):
+        for layout in ("one", "two", "three", "two_selective"):
+            for variant in ("self", "chain", "list"):
+                pub = "" if layout == "one" else "öffentliche "
+                if variant == "list":
+                    calls = "".join("\t\tzeige_v (eine Liste, die aus %s besteht) (n minus 1).\n" % l for l in lits[:k])
+                    ptype = "T Liste"
+                    first = "(eine Liste, die aus 'c' besteht)"
+                else:
+                    calls = "".join("\t\tzeige_v %s (n minus 1).\n" % l for l in lits[:k])
+                    ptype = "T"
+                    first = "'c'"
+                lib = ("Die %sgenerische Funktion zeige_v_f mit den Parametern x und n vom Typ %s und Zahl, gibt nichts zurück, macht:\n"
+                       "\tWenn n größer als 0 ist, dann:\n%sUnd kann so benutzt werden:\n\t\"zeige_v <x> <n>\"\n" % (pub, ptype, calls))
+                if variant == "chain":
+                    lib += ("Die %sgenerische Funktion kette_f mit den Parametern x und n vom Typ T und Zahl, gibt nichts zurück, macht:\n"
+                            "\tzeige_v x n.\n%sUnd kann so benutzt werden:\n\t\"kette <x> <n>\"\n" % (pub, "".join("\tzeige_v %s n.\n" % l for l in lits[:k])))
+                use = ("kette %s 2.\n" if variant == "chain" else "zeige_v %s 2.\n") % first
+                name = "generic_%s_%s_%d" % (layout, variant, k)
+                if layout == "one":
+                    files = {"main.ddp": lib + use}
+                elif layout == "two":
+                    files = {"main.ddp": 'Binde "lib" ein.\n' + use, "lib.ddp": lib}
+                elif layout == "two_selective":
+                    files = {"main.ddp": ('Binde %s aus "lib" ein.\n' % ("kette_f und zeige_v_f" if variant == "chain" else "zeige_v_f")) + use, "lib.ddp": lib}
+                else:
+                    mitte = ('Binde "lib" ein.\nDie öffentliche generische Funktion weiter_f mit den Parametern x und n vom Typ T und Zahl, gibt nichts zurück, macht:\n'
+                             "\t%s\nUnd kann so benutzt werden:\n\t\"weiter <x> <n>\"\n" % (("kette x n." if variant == "chain" else "zeige_v x n.") if variant != "list" else "zeige_v (eine Liste, die aus x besteht) n."))
+                    files = {"main.ddp": 'Binde "mitte" ein.\nweiter \'c\' 2.\n', "mitte.ddp": mitte, "lib.ddp": lib}
+                out.append((name, files))
+    return out
+
+
 def gen_import_graphs(rnd, n):
     """yields (name, {relpath: content}, main_relpath)"""
     out = []
@@ -144,6 +183,7 @@ def gen_import_graphs(rnd, n):
         ("unreadable", {"main.ddp": 'Binde "a" ein.\n', "a.ddp": None}),
         ("import_main_ext", {"main.ddp": 'Binde "a.ddp" ein.\n', "a.ddp": decl("x")}),
     ]
+    fixed += generic_graphs()
     for name, files in fixed:
         out.append((name, files, "main.ddp"))
     # random graphs: nodes 2..7, random edges (cycles allowed), random visibility, random selective imports
